@@ -46,7 +46,9 @@ func check(c Case) (o ev.Outcome) {
 	}
 	o.Sample = map[string]any{"order": c.Order, "sources": srcs}
 	var obs *schema.Observed
-	if !ev.Guard(&o, "load+process", func() { obs = schema.LoadFetched(srcs, c.Fetch, func(ms *yang.Modules) { ms.ParseOptions.StoreUses = c.StoreUses }) }) {
+	if !ev.Guard(&o, "load+process", func() {
+		obs = schema.LoadFetched(srcs, c.Fetch, func(ms *yang.Modules) { ms.ParseOptions.StoreUses = c.StoreUses })
+	}) {
 		o.Violations = nil
 		o.OutOfClaim = "crash while loading (C01)"
 		return
